@@ -320,10 +320,9 @@ Qed.
 (* ---------- renumbering: Model/Renumber.v, facts from the C10 development ---------- *)
 Definition rdoc_of (d : doc) : rdoc := {| base := d; max_bookmark_id := 0; bookmarks := []; bm_table := [] |}.
 
-(* the domain of renumbering proved in C10: fewer than 2^32 objects, and outside C10's open known finding
-   (a dangling reference whose number lies in the new range) *)
-Definition renumber_dom (d : doc) : Prop :=
-  fits 1 (rdoc_of d) /\ RenumberProofsTop.KnownClass 1 (rdoc_of d) = false.
+(* the domain of renumbering: fewer than 2^32 objects (C10's renumber_dense_all needs nothing else since the
+   dangling-in-range finding was repaired in /repo e5c19fd) *)
+Definition renumber_dom (d : doc) : Prop := fits 1 (rdoc_of d).
 
 Lemma nums_from_bound : forall n s x, In x (nums_from s n) -> (s <= x < s + N.of_nat n)%N.
 Proof.
@@ -334,7 +333,7 @@ Qed.
 Lemma renumber_spec d : doc_wf d -> renumber_dom d ->
   exists d', renumber d = (d', OUnit) /\ doc_wf d' /\ alloc_ok d'.
 Proof.
-  intros W [F K]. destruct (renumber_dense 1 (rdoc_of d) W F K) as [rd [E [L [Nm [_ [S [_ [Mx M0]]]]]]]].
+  intros W F. destruct (renumber_dense_all 1 (rdoc_of d) W F) as [rd [E [L [Nm [_ [S [_ [Mx M0]]]]]]]].
   exists (base rd). assert (Er : renumber_objects (rdoc_of d) = Done rd) by exact E.
   unfold renumber. unfold rdoc_of in Er. rewrite Er. split; [reflexivity|]. split; [exact S|].
   intros x Hx. unfold has_obj in Hx. apply (in_map fst) in Hx. rewrite Nm in Hx. apply nums_from_bound in Hx.
